@@ -448,6 +448,12 @@ def install_rel(eng, cfg):
             if f == 'RAISE':
                 msg = e[2][1][1][1] if len(e[2]) > 1 and e[2][1][0] == 'lit' else ()
                 raise Abort(SQLITE_CONSTRAINT, 'RAISE: ' + bytes(msg).decode('latin1'))
+            if f == 'STRFTIME':
+                # the current time: an arbitrary value in a sane range (stored into NUMERIC-affinity columns, i.e. as an integer)
+                if ctx.st is None: return ('int', 0)
+                v = ctx.st.new_input('db_time', 64, 'env')
+                ctx.st.var_ranges = dict(ctx.st.var_ranges); ctx.st.var_ranges[v.get_id()] = (0, 1 << 32); ctx.st.pc.append(z3.ULE(v, 1 << 32))
+                return ('int', v)
             raise E.Inconclusive('sqlmodel', 'SQL function %s' % f)
         raise E.Inconclusive('sqlmodel', 'expression kind %s' % k)
 
@@ -484,7 +490,9 @@ def install_rel(eng, cfg):
                         if seen > len(ids) * len(ids) + 1: raise E.Bug('nonterm', 'the recursive view PlaylistAllChildren does not terminate: the parent links of Playlist contain a cycle (SQLite loops forever)', eng._m(ctx.st))
                         work.extend(kids.get(c, []))
             return out
-        if n in schema.views: raise E.Inconclusive('sqlmodel', 'view %s is not modelled' % name)
+        if n in schema.views:
+            if re.search(r'AS SELECT 0, 0 WHERE FALSE$', schema.views[n], re.I): return []        # the always-empty ChangeLog view of the later 2.x schemas
+            raise E.Inconclusive('sqlmodel', 'view %s is not modelled' % name)
         raise Abort(SQLITE_ERROR, 'no such table: ' + name)
 
     def run_select(ctx, sel, outer_env):
@@ -568,11 +576,20 @@ def install_rel(eng, cfg):
         tname = stmt['table'].lower()
         tdef = schema.tables.get(tname)
         if tdef is None:
+            if tname in schema.views and k == 'insert' and stmt['cols']:
+                # INSERT through a view: only its INSTEAD OF triggers run
+                n = 0
+                for vals in stmt['tuples']:
+                    new = {c: ev(ctx, e, []) for c, e in zip(stmt['cols'], vals)}
+                    fire(ctx, 'INSTEAD', 'INSERT', tname, new, None); n += 1
+                if not any(tg['table'] == tname and tg['timing'] == 'INSTEAD' and tg['event'] == 'INSERT' for tg in schema.triggers):
+                    raise Abort(SQLITE_ERROR, 'cannot modify %s because it is a view' % stmt['table'])
+                return n
             if tname in schema.views: raise E.Inconclusive('sqlmodel', 'write through view %s (INSTEAD OF triggers) is not modelled' % stmt['table'])
             raise Abort(SQLITE_ERROR, 'no such table: ' + stmt['table'])
         t = db.rows[tname]; names = {tname}; n = 0
         if k == 'insert':
-            cols = stmt['cols'] or tdef['cols']
+            cols = stmt['cols'] or tdef['cols']; pending_seq = 0
             for vals in stmt['tuples']:
                 if len(vals) != len(cols): raise Abort(SQLITE_ERROR, 'column / value count mismatch')
                 row = {}
@@ -583,7 +600,7 @@ def install_rel(eng, cfg):
                 if explicit: rid = rowid_of(ctx, row[pk], 'INSERT')
                 else:
                     rid = max(list(t) + [0]) + 1
-                    if tdef['autoinc']: rid = max(rid, db.seq.get(tdef['name'], 0) + 1)
+                    if tdef['autoinc']: rid = max(rid, db.seq.get(tdef['name'], 0) + 1, pending_seq + 1)
                 # BEFORE triggers see NEW.<pk> = -1 when the key is not given
                 newb = trow(tdef, dict(row, **({pk: ('int', (rid if explicit else -1) & M64)} if pk else {})))
                 fire(ctx, 'BEFORE', 'INSERT', tname, newb, None)
@@ -597,9 +614,10 @@ def install_rel(eng, cfg):
                     if not stmt['replace']: raise Abort(SQLITE_CONSTRAINT, 'UNIQUE constraint failed: %s(%s)' % (tdef['name'], ','.join(bad[0])))
                     del t[bad[1]]
                 t[rid] = row; n += 1
-                if tdef['autoinc']: db.seq[tdef['name']] = max(db.seq.get(tdef['name'], 0), rid)
-                ctx.db.last_rowid = rid
+                ctx.db.last_rowid = rid; pending_seq = max(pending_seq, rid)
                 fire(ctx, 'AFTER', 'INSERT', tname, trow(tdef, row), None)
+            # SQLite writes the AUTOINCREMENT counter back to sqlite_sequence when the statement ends: AFTER INSERT triggers still see the old value
+            if tdef['autoinc'] and pending_seq: db.seq[tdef['name']] = max(db.seq.get(tdef['name'], 0), pending_seq)
             return n
         # UPDATE / DELETE: the set of affected rows is fixed first
         sel = []
